@@ -42,7 +42,7 @@ FUNCS = [IN + 'nmpfit.NmpfitStrategy.fit', IN + 'nmpfit.NmpfitStrategy.minimize'
          IN + 'nmpfit.NmpfitStrategy.calc_residuals', IN + 'nmpfit.NmpfitStrategy.unscale_pars_from_minimizer',
          IN + 'nmpfit.NmpfitStrategy.get_errors_from_minimizer', IN + 'nmpfit.NmpfitStrategy.cleanup_from_fit',
          IN + 'scipyfit.LeastSquaresScipyStrategy.fit', IN + 'scipyfit.LeastSquaresScipyStrategy.minimize',
-         IN + 'result.FitResult.parameters', IN + 'result.FitResult.hologram', IN + 'result.FitResult.max_lnprob',
+         IN + 'result.FitResult.parameters', IN + 'result.FitResult.hologram', IN + 'result.FitResult.guess_hologram', IN + 'result.FitResult.max_lnprob',
          IN + 'result.FitResult.forward', 'holopy.core.prior.Prior.scale', 'holopy.core.prior.Prior.unscale']
 
 
@@ -160,6 +160,10 @@ def nmpfit_ob(S):
             S.claim_le(f'{nm}.within_upper_bound', v, p.upper_bound)
     fwd = model.forward(result.parameters, data)
     S.claim_eq('hologram_is_forward_model', _flatvals(result.hologram).reshape(-1), _flatvals(fwd).reshape(-1))
+    S.claim_eq('guess_hologram_is_forward_model_at_guess', _flatvals(result.guess_hologram).reshape(-1),
+               _flatvals(model.forward(model.initial_guess, data)).reshape(-1))
+    S.claim_eq('hologram_unchanged_after_guess_hologram', _flatvals(result.hologram).reshape(-1),
+               _flatvals(fwd).reshape(-1))
     lp = model.lnposterior(result.parameters, data)
     if _is_minf(lp) or _is_minf(result.max_lnprob):
         S.claim('max_lnprob_inf_agree', _is_minf(lp) and _is_minf(result.max_lnprob))
@@ -222,9 +226,16 @@ def scipy_subset(S):
     for nm, v in zip(names, vals):
         S.claim_eq(f'{nm}.reported_is_unscaled_optimum', v, pri[nm].unscale(S.real(f'opt_{nm}')))
     S.claim('fitted_on_subset', result.data.sizes.get('flat') == 3)
+    # the guess hologram is read first (history: the two cached holograms must not share a slot)
+    guess_holo = result.guess_hologram
+    guess_full = model.forward(model.initial_guess, data)
+    S.claim_eq('guess_hologram_is_forward_model_at_guess', _flatvals(guess_holo).reshape(-1),
+               _flatvals(guess_full).reshape(-1))
     # best-fit hologram lives on the original grid
     holo = result.hologram
     full = model.forward(result.parameters, data)
+    S.claim_eq('guess_hologram_unchanged_after_hologram', _flatvals(result.guess_hologram).reshape(-1),
+               _flatvals(guess_full).reshape(-1))
     S.claim('hologram_on_original_grid', holo.sizes.get('x') == 2 and holo.sizes.get('y') == 2 and
             bool(np.allclose(holo.x.values, data.x.values)) and bool(np.allclose(holo.y.values, data.y.values)))
     S.claim_eq('hologram_is_forward_model', _flatvals(holo).reshape(-1), _flatvals(full).reshape(-1))
